@@ -22,7 +22,7 @@ pub mod splice;
 // map v6 socket addr into v4 if possible
 pub fn try_map_v4_addr(addr: SocketAddr) -> SocketAddr {
     if let SocketAddr::V6(v6) = addr {
-        if let Some(v4a) = v6.ip().to_ipv4() {
+        if let Some(v4a) = v6.ip().to_ipv4_mapped() {
             SocketAddr::V4(SocketAddrV4::new(v4a, v6.port()))
         } else {
             addr
